@@ -59,6 +59,7 @@ fn line(kind: usize, i: usize) -> Vec<u8> {
             l.extend_from_slice(&tag);
         }
         17 => l.extend_from_slice(b"@option preserve"),
+        19 => l.extend_from_slice(b"@cwd /\xff/"),
         _ => l.extend_from_slice(b"@comment x"),
     }
     l
@@ -238,9 +239,9 @@ fn build_tagged(nlines: usize, menu: &[usize], tags: usize) -> Option<Plist> {
     Plist::from_bytes(&text).ok()
 }
 
-/// all 19 line kinds, short lists
+/// all 20 line kinds, short lists
 pub fn h_all_kinds() {
-    let all: Vec<usize> = (0..19).collect();
+    let all: Vec<usize> = (0..20).collect();
     match build(sym::bound(3, 4), &all) {
         Some(p) => check_views(&p),
         None => sym::check("C15/parses", false),
